@@ -79,7 +79,7 @@ def coq_cfg(c):
         outs = "[" + "; ".join(coq_row(r) for r in b["outs"]) + "]"
         succs = "[" + "; ".join(f"{s}%nat" for s in b["succs"]) + "]"
         bbs.append(f"mkBB {coq_row(b['in'])} {outs} {succs}")
-    ret = "[" + "; ".join(map(str, c["ret"])) + "]"
+    ret = "[" + "; ".join(f"({t}, {'true' if d else 'false'})" for t, d in c["ret"]) + "]"
     return f"(mkCfg [{'; '.join(bbs)}] {c['entry']}%nat {c['exit']}%nat {ret})"
 
 
@@ -174,7 +174,7 @@ def fail_class(r):
     return None
 
 
-def shrink(ctx, src, cls, rounds=12):
+def shrink(ctx, src, cls, rounds=6, max_cands=36):
     import gen_progs
     pre = gen_progs.PRELUDE if src.startswith(gen_progs.PRELUDE) else None
     if pre is None:
@@ -193,8 +193,10 @@ def shrink(ctx, src, cls, rounds=12):
             if j > i + 1 and not line.strip().startswith(("else", "elif")):
                 inner = [l[4:] for l in body[i + 1:j]]
                 cands.append(body[:i] + inner + body[j:])          # replace compound by its body
+        cands.sort(key=len)
+        cands = cands[:max_cands]
         progs = [{"id": str(k), "src": pre + "\n".join(c), "entry": "main"} for k, c in enumerate(cands)]
-        res, _ = run_programs(ctx, progs, chunk=8)
+        res, _ = run_programs(ctx, progs, chunk=4)
         hit = [k for k, r in enumerate(res) if fail_class(r) == cls]
         if not hit:
             break
